@@ -72,6 +72,8 @@ def run_shard(spec, acc):
                     else:
                         fus = [shape, rng.choice(followers)]
                         js = [0, rng.choice([1, 2, 3])]
+                    if rng.random() < (0.3 if thorough else 0.1):
+                        js = js + [rng.choice([5, 6, 7, 9, 12, 20])]   # a long outage
                     for fu in fus:
                         for j in js:
                             variants = ["plain"]
@@ -90,6 +92,9 @@ def run_shard(spec, acc):
                                     rng.randrange(3),
                                     rng.choice(["timeout", "timeout", "read_error",
                                                 "write_error"])))
+                            if j == 0 and not fu.name.startswith("uiHeartbeat") and \
+                                    rng.random() < (0.5 if thorough else 0.12):
+                                variants.append("flap:%d" % rng.choice([2, 5, 6, 7, 10, 16]))
                             if thorough or rng.random() < 0.25:
                                 variants.append("double:%d:%s" % (
                                     rng.randrange(1, 4),
@@ -143,6 +148,10 @@ def baseline(shape):
 
 def shape_by_name(name, v1):
     return [s for s in fl.shapes(v1) if s.name == name][0]
+
+
+def rng_kind(c, rnd):
+    return ("read_error", "write_error")[(zlib.crc32(repr(sorted(c.items())).encode()) + rnd) % 2]
 
 
 def run_case(acc, c, roles=None):
@@ -208,6 +217,11 @@ def run_case(acc, c, roles=None):
         dev.mode = 0x03
         dev.pending_link = None
         dev.adv_policy = {}
+        # from here on the device behaves as the follow-up's shape says (where a faulted
+        # uiHeartbeat shape has it come back in another mode, the follow-up's own setting -
+        # by default: back in the signer - applies to the follow-up)
+        for k_ in ("hb_back_mode", "hb_exit_mode"):
+            dev.cfg[k_] = fu.devcfg.get(k_)
         if fu.post and fu.name != "uiHeartbeat.hbmode":
             fu.post(dev)
         if c["variant"] == "reboot" or c["variant"].startswith("rebootlate"):
@@ -272,6 +286,34 @@ def run_case(acc, c, roles=None):
             if apd:
                 return bad("apdu-sent-while-disconnected:%s" % fu.command,
                            apdus=[a["apdu"].hex() for a in apd if a["apdu"]][:4])
+        if c["variant"].startswith("flap:"):
+            # a flapping link: every repair succeeds (connection re-opened, full bring-up),
+            # then the command's own first exchange fails again - n requests in a row.
+            # Each gets the device-error code, each next one repairs again; the manager
+            # never gives up and never stops.
+            for rnd in range(int(c["variant"].split(":")[1])):
+                s.bus.arm({len(BRINGUP): Fault(rng_kind(c, rnd))})
+                mark = len(s.bus.events)
+                rf, ef, _ = s.request(fu.request)
+                acc.count("flapping_link_rounds")
+                rolesf = [fl.role_of(e["apdu"]) for e in s.bus.apdus(mark)]
+                if ef is not None:
+                    return bad("exception-escaped-on-flapping-link:%s:%s" % (
+                        fu.command, type(ef).__name__), exc=repr(ef), round=rnd)
+                if rolesf[:len(BRINGUP)] != BRINGUP:
+                    return bad("no-full-bring-up-on-flapping-link:%s" % fu.command,
+                               roles=rolesf[:8], round=rnd, reply=rf)
+                if len(rolesf) <= len(BRINGUP):
+                    break           # this command needs no exchange of its own
+                if not isinstance(rf, dict) or rf.get("errorcode") != want:
+                    return bad("flapping-link-round-not-device-error:%s" % fu.command,
+                               reply=rf, round=rnd)
+                dev.mode = 0x03
+                dev.pending_link = None
+                dev.adv_policy = {}
+                if fu.post:
+                    fu.post(dev)
+            old_handle = s.bus.handle_seq
         plan = {}
         if c["variant"].startswith("double"):
             _, m, dk = c["variant"].split(":")
